@@ -53,6 +53,7 @@ func H_FiberConc() {
 			fctx.SetUserValue("__local_user_context__", context.WithValue(context.Background(), "req", id))
 		})
 	}
+	vrt.RaceDetect(true)
 	vrt.Go("req0", func() { serve(0) })
 	vrt.Go("req1", func() { serve(1) })
 	vrt.WaitAll()
